@@ -198,11 +198,13 @@ def explore_mesh(run, cellname, quick):
     c = []
     src = [s for s in d1 if not s.fid]
     if quick:
-        src = [s for s in src if len(repr(s.recipe)) < 75]
+        # second derivatives: the first-derivative states with the shortest recipes (3D: fewer, order-3 jets in three
+        # variables dominate the cost of the quick tier); the thorough tier differentiates all of them
+        src = sorted(src, key=lambda s: (len(repr(s.recipe)), repr(s.recipe)))[: (1500 if g == 2 else 450)]
     for s in src:
         c += d_cands(s, g)
     # products of derivatives with terminals, then differentiated again (product rule on derivatives)
-    for s in [s for s in d1 if not s.fid][: (200 if quick else 2000)]:
+    for s in [s for s in d1 if not s.fid][: ((200 if g == 2 else 60) if quick else 2000)]:
         c.append(("grad", ("mul", ("t", "f"), s.recipe)))
         if s.rank >= 1:
             c.append(("divg", ("mul", ("t", "f"), s.recipe)))
